@@ -49,7 +49,9 @@ class Terminal(Symbol):
         return '%s(%r, %r)' % (type(self).__name__, self.name, self.filter_out)
 
     def renamed(self, f):
-        return type(self)(f(self.name), self.filter_out)
+        name = f(self.name)
+        # A named terminal is filtered by its name; an alias may add or drop the leading underscore
+        return type(self)(name, name.startswith('_') if self.filter_out == self.name.startswith('_') else self.filter_out)
 
 
 class NonTerminal(Symbol):
